@@ -165,13 +165,24 @@ func caseCoq(f *Fam, c Case) string {
 
 const shardHeader = "From Coq Require Import Reals ZArith List. Import ListNotations.\nFrom ADV Require Import C14.ER C14.Model C14.VModel C14.Corr.\nOpen Scope R_scope.\nGoal True.\n"
 
-func writeShards(dir, stem string, props []string, per int) (int, error) {
+// shards of `per` cases for props[0:split) and of `per2` cases for props[split:) (the vector cases, whose
+// certificates are slower); the case index printed on a mismatch is the global index
+func writeShards(dir, stem string, props []string, per int, splits ...int) (int, error) {
 	if err := os.MkdirAll(dir, 0755); err != nil {
 		return 0, err
 	}
+	split, per2 := len(props), per
+	if len(splits) == 2 {
+		split, per2 = splits[0], splits[1]
+	}
 	n := 0
-	for start := 0; start < len(props); start += per {
+	for start := 0; start < len(props); {
 		end := start + per
+		if start >= split {
+			end = start + per2
+		} else if end > split {
+			end = split
+		}
 		if end > len(props) {
 			end = len(props)
 		}
@@ -185,6 +196,7 @@ func writeShards(dir, stem string, props []string, per int) (int, error) {
 			return n, err
 		}
 		n++
+		start = end
 	}
 	return n, nil
 }
@@ -314,6 +326,7 @@ func main() {
 		add(genCase(f, rng.Split()), f, "")
 	}
 	// vector families: d = 1..4 in turn (odd and even), Float64 and Real64 parameters
+	nScalar := len(props)
 	nv := o.N / 6
 	vr := NewRng(o.Seed + 15485863)
 	for k := 0; k < nv; k++ {
@@ -331,7 +344,7 @@ func main() {
 		nontriv[fmt.Sprintf("%s/%v", fam, vc)] = true
 	}
 	per := 40
-	nsh, err := writeShards(o.Out, "cases", props, per)
+	nsh, err := writeShards(o.Out, "cases", props, per, nScalar, 11)
 	if err != nil {
 		Die("%v", err)
 	}
